@@ -603,6 +603,13 @@ def pred_c16(T, inp):
     g = build(T, inp["atoms"], inp["edges"], extra=True)
     if inp.get("relabel"):
         g = T.nx.relabel_nodes(g, {i: l for i, l in enumerate(inp["relabel"])})
+    if inp.get("node_order"):
+        # same labelled molecule, nodes inserted in another order and bonds added with the larger label first
+        h = T.nx.Graph()
+        nodes = list(g.nodes(data=True))
+        h.add_nodes_from((nodes[i][0], dict(nodes[i][1])) for i in inp["node_order"])
+        h.add_edges_from((max(u, v), min(u, v), dict(d)) for u, v, d in g.edges(data=True))
+        g = h
     snap = copy.deepcopy((list(g.nodes(data=True)), list(g.edges(data=True))))
     r = T.permute_molecule(g, random_seed=inp["seed"])
     if (list(g.nodes(data=True)), list(g.edges(data=True))) != snap:
@@ -730,6 +737,13 @@ SYMMETRIC = {
 }
 
 
+DEEP_REFINEMENT = [
+    [(1, 2), (1, 6), (1, 10), (2, 3), (2, 4), (3, 5), (3, 8), (4, 9), (5, 8), (6, 7), (7, 10), (9, 10)],
+    [(1, 2), (1, 3), (2, 4), (2, 5), (3, 6), (4, 7), (4, 8), (5, 9), (6, 9), (6, 11), (7, 8), (9, 10), (10, 11)],
+    [(1, 2), (1, 3), (1, 7), (2, 4), (3, 5), (3, 10), (4, 11), (4, 12), (5, 6), (6, 8), (6, 9), (7, 12), (8, 9), (10, 11)],
+]
+
+
 def molecules(rnd, tier, max_n_quick=4, max_n_thorough=5, per_graph=1):
     """small-scope molecules (all graphs up to n) + symmetric skeletons with one or two labelled atoms + 2-component graphs"""
     max_n = max_n_quick if tier == "quick" else max_n_thorough
@@ -746,6 +760,11 @@ def molecules(rnd, tier, max_n_quick=4, max_n_thorough=5, per_graph=1):
         atoms = [{"sym": "C"} for _ in range(n)]
         atoms[rnd.randrange(n)] = {"sym": "C", "mass": 13}
         out.append((atoms, chain + [[n - 1, 0]]))
+    # compact polycyclic single-element skeletons on which colour refinement needs more productive rounds than half the atom count
+    # (each round splits one or two classes only); found by random search, 1 in ~250 000 polycyclic graphs of 8-14 atoms
+    for edges1 in DEEP_REFINEMENT:
+        n = max(max(e) for e in edges1)
+        out.append(([{"sym": "C"} for _ in range(n)], [[a - 1, b - 1] for a, b in edges1]))
     for _ in range(40 if tier == "quick" else 400):
         # sparse multi-component records (salts, mixtures): few bonds, several unbonded atoms, wide spread of atomic numbers
         n = rnd.randint(4, 8)
@@ -895,6 +914,9 @@ def gen_c10(T, tier, seed, budget, out: Outcome):
     go("C/(1-" + "1" * 4301 + ")")
     go("C2/(1-2)/(1:mass=" + "9" * 5000 + ")")
     go("/")
+    # sentences with an empty sum formula: every index they mention is out of range
+    for t in ["//", "//(1:mass=2)", "//(1:rad=3)", "//(1:mass=2,rad=1)", "//(1:mass=2)(1:rad=1)", "/(1-2)", "/(1-2)/(1:mass=2)", "//(2:mass=2)", "H//(2:mass=2)", "H//(1:mass=2)"]:
+        go(t)
     sents = VALID_SENTENCES[:]
     rnd.shuffle(sents)
     for s in sents[: (6 if tier == "quick" else len(sents))]:
@@ -1272,8 +1294,8 @@ def gen_c15(T, tier, seed, budget, out: Outcome):
 def gen_c16(T, tier, seed, budget, out: Outcome):
     rnd = random.Random(seed)
     t0 = time.time()
-    out.rule = ("small-scope molecules (n<=5, symmetric skeletons) with attributes attached, optionally relabelled to non-consecutive labels, x seeds "
-                "in [0,1). Non-trivial = distinct (molecule, seed) with >= 2 bonds and not complete.")
+    out.rule = ("small-scope molecules (n<=5, symmetric skeletons) with attributes attached, optionally relabelled to non-consecutive labels and with the nodes "
+                "inserted in another order than the label order, x seeds in [0,1); three tiny molecules in reversed node order x a grid of 40 (200) seeds. Non-trivial = distinct (molecule, seed) with >= 2 bonds and not complete.")
     mols = molecules(rnd, tier)
     rnd.shuffle(mols)
     for atoms, edges in mols[: (150 if tier == "quick" else 2000)]:
@@ -1283,8 +1305,19 @@ def gen_c16(T, tier, seed, budget, out: Outcome):
                 return
             relabel = sorted(rnd.sample(range(100), n)) if rnd.random() < .3 else None
             inp = {"atoms": atoms, "edges": edges, "seed": seed_, "relabel": relabel}
+            if rnd.random() < .4:
+                inp["node_order"] = rnd.sample(range(n), n)
             m = len(edges)
             out.run(T, "c16", inp, json.dumps([atoms, edges, seed_]) if m > 1 and 2 * m != n * (n - 1) else None)
+    # very small molecules whose node order differs from the label order, a grid of seeds: a shuffle that maps the edge set onto itself is frequent here
+    for atoms, edges in [([{"sym": "C"}, {"sym": "C"}, {"sym": "C"}], [[0, 1], [0, 2]]), ([{"sym": "H"}] * 4 + [{"sym": "C"}], [[0, 4], [1, 4], [2, 4], [3, 4]]),
+                         ([{"sym": "H"}, {"sym": "H"}, {"sym": "O"}], [[0, 2], [1, 2]])]:
+        n = len(atoms)
+        for k in range(40 if tier == "quick" else 200):
+            if time.time() - t0 > budget * 1.5 or len(out.violations) >= 3:
+                return
+            inp = {"atoms": [dict(a) for a in atoms], "edges": edges, "seed": k / (40 if tier == "quick" else 200), "relabel": None, "node_order": list(reversed(range(n)))}
+            out.run(T, "c16", inp, json.dumps([atoms, edges, inp["seed"], "reversed"]))
 
 
 # --------------------------------------------------------------------------- C14 (determinism) — subprocess probe
